@@ -545,3 +545,49 @@ Definition kMaxIds : N := 2147483647.
 
 Definition wf_ops (ops : list dop) : Prop :=
   forallb wf_op ops = true /\ N.of_nat (mentions ops) < kMaxIds.
+
+(* ------------------------------------------------------------------------------------ *)
+(* C13: a syntactic description of the files on which Load has no undefined behaviour    *)
+
+(* path part of 1 or 2 bytes, all NUL (record size 5 or 6) *)
+Definition short_all_nul (buf : bytes) : bool :=
+  match buf with
+  | [b; _; _; _; _] => b =? 0
+  | [b0; b1; _; _; _; _] => (b0 =? 0) && (b1 =? 0)
+  | _ => false
+  end.
+
+(* The framed record (is_deps, size, buf) avoids every DUnsafe class:
+   deps record with size % 4 = 0: at least three words (class 1), no sign bit in the out id
+   (class 3) nor in any dep id (class 2), out id <> INT_MAX (class 4);
+   path record: size % 4 = 0 when misaligned loads count (class 6; this also excludes class 5,
+   which needs size 5 or 6), otherwise just not class 5. *)
+Definition record_safe (strict_align : bool) (r : bool * N * bytes) : bool :=
+  match r with
+  | (is_deps, size, buf) =>
+      if is_deps then
+        if size mod 4 =? 0 then
+          match words_of buf with
+          | out :: _ :: _ :: ins => (out <? two31 - 1) && forallb (fun i => i <? two31) ins
+          | _ => false
+          end
+        else true
+      else if strict_align then size mod 4 =? 0 else negb (short_all_nul buf)
+  end.
+
+(* All frames of the record area, by the size words alone (no validation). *)
+Fixpoint frames_of (fuel : nat) (x : bytes) : list (bool * N * bytes) :=
+  match fuel with
+  | O => []
+  | S fuel' =>
+      match frame x with
+      | FRec d size buf rest => (d, size, buf) :: frames_of fuel' rest
+      | _ => []
+      end
+  end.
+
+Definition safe_file (strict_align : bool) (file : bytes) : bool :=
+  match take 16 file with
+  | None => true
+  | Some (_, x) => forallb (record_safe strict_align) (frames_of (S (length x)) x)
+  end.
